@@ -224,6 +224,15 @@ def regex_with_anything(ctx: Ctx, n: int):
             continue
         arch = rules.make_arch_direct(nodes, edges)
         rel = any(rules.related(a, b) for a in matched for b in matched if a != b)
+        # the model is faithful to the code here (K3 included): a change of behaviour inside the known-finding class still shows
+        # as a model / implementation disagreement
+        both = [dict(subj=("regex", [pat]), verbs=["should_not"], imp=imp, anything=True) for imp in (True, False)] + \
+               [dict(subj=("named", matched), verbs=["should_not"], imp=imp, anything=True) for imp in (True, False)]
+        (rec_m, _w, _m), = rules.eval_cases([dict(nodes=nodes, edges=edges, specs=both)])
+        for spec_m, (io_m, mo_m) in zip(both, rec_m):
+            if not rules.same_verdict(io_m, mo_m) or not rules.same_lines(io_m, mo_m):
+                ctx.disagreement(dict(nodes=nodes, edges=edges, spec=rules._jsonable_spec(spec_m), impl=[io_m[0], io_m[1][:200]], model=mo_m[0]),
+                                 f"model and implementation differ on an 'anything' rule: impl={io_m[0]} model={mo_m[0]}")
         for imp in (True, False):
             compact = dict(subj=("regex", [pat]), verbs=["should_not"], imp=imp, anything=True)
             expanded = dict(subj=("named", matched), verbs=["should_not"], imp=imp, anything=True)
